@@ -19,6 +19,47 @@ ASSUMPTIONS = ["coordinates are dyadic rationals for which binary64 arithmetic i
 CORPUS = T.CORPUS
 
 
+LOOP_SRC = T.PRELUDE + '''
+@tweezer
+def sweep(g: grid.Grid[Any, Any], n: int):
+    action.set_loc(g)
+    cols = [0]
+    for i in range(n):
+        cols = cols + [len(cols)]
+        action.move(grid.shift(g, 1.0 * len(cols), 0.5 * i))
+    action.turn_on(cols, [0])
+    action.move(grid.shift(g, 0.0, 1.0 * len(cols)))
+
+@tweezer
+def sweep_unrolled(g: grid.Grid[Any, Any], n: int):
+    action.set_loc(g)
+    action.move(grid.shift(g, 2.0, 0.0))
+    action.move(grid.shift(g, 3.0, 0.5))
+    action.move(grid.shift(g, 4.0, 1.0))
+    action.turn_on([0, 1, 2, 3], [0])
+    action.move(grid.shift(g, 0.0, 4.0))
+'''
+
+
+def loop_list_stream(ctx, spec):
+    """a list that grows inside a loop, with len() of it used inside and after the loop: the trace is the trace of the same
+    kernel written out without the loop (index lists are outside the generated kernels' language)"""
+    from bloqade.geometry.dialects.grid import Grid
+    from bloqade.shuttle.codegen import TraceInterpreter
+    g = Grid.from_positions([0.0, 1.0, 2.0, 3.0], [0.0])
+    for opts in ("", "(fold=False)"):
+        mod = T.load_source(LOOP_SRC.replace("@tweezer\ndef sweep(", f"@tweezer{opts}\ndef sweep("), "c01l")
+        ctx.count("loop_list_runs")
+        try:
+            got = T.canon_path(TraceInterpreter(spec).run_trace(mod.sweep, (g, 3), {}))
+        except Exception as e:  # noqa: BLE001
+            got = f"err {type(e).__name__}"
+        want = T.canon_path(TraceInterpreter(spec).run_trace(mod.sweep_unrolled, (g, 3), {}))
+        if got != want:
+            ctx.fail({"source": LOOP_SRC[len(T.PRELUDE):], "args": ["g", 3], "options": opts},
+                     f"a kernel with a list growing in a loop traces to {got[:300]}, written out without the loop it traces to {want[:300]}")
+
+
 def run(ctx):
     spec = T.default_spec()
     traps, zones = T.spec_tables(spec)
@@ -36,6 +77,8 @@ def run(ctx):
         cases += T.random_traces(ctx, spec, n_prog, unfolded_share=0.25)
         if ctx.counts.get("compile_fail", 0) > 0.3 * n_prog:
             raise HarnessFault("generator degenerate: >30% of generated kernels do not compile")
+    if ctx.replay_case is None:
+        loop_list_stream(ctx, spec)
     # kernel level: the Lean evaluator runs the kernel's *source* (Model/Lang.lean) and the tracer
     # model consumes the operations it performs
     from .. import lang as L
